@@ -277,6 +277,8 @@ func c16Items() []c16Item {
 		{b: pack(&knxnet.TunnelReq{Channel: 2, SeqNumber: 4, Payload: &cemi.LDataInd{LData: cemi.LData{Info: cemi.Info{1, 2, 3, 4, 5}, Control2: cemi.Control2GroupAddr, Source: 0x1203, Destination: 0x0905, Data: &cemi.AppData{Command: cemi.GroupValueWrite, Data: []byte{1, 0xAA, 0xBB, 0xCC}}}}}), wellUDP: true, wellTCP: true, name: "TunnelReq-with-additional-info"},
 		{b: fr(0x0204, hex.EncodeToString(devDIB(0x1107))+"04020201"+"08fe0102030405aa"), wellUDP: true, wellTCP: true, name: "DescriptionRes-with-further-DIB"},
 		{b: pack(&knxnet.RoutingInd{Payload: &cemi.LRawInd{LRaw: cemi.LRaw{9, 8, 7, 6, 5, 4, 3, 2, 1}}}), wellUDP: true, wellTCP: true, name: "RoutingInd-raw"},
+		{b: pack(&knxnet.TunnelReq{Channel: 2, SeqNumber: 5, Payload: c12FullFrame(1, c12Shape{254, 0})}), wellUDP: true, wellTCP: true, name: "TunnelReq-254-octet-payload"},
+		{b: pack(&knxnet.TunnelReq{Channel: 2, SeqNumber: 6, Payload: c12FullFrame(2, c12Shape{254, 255})}), wellUDP: true, wellTCP: true, name: "TunnelReq-largest-frame-529-octets"},
 		{b: fs[1], foreign: true, wellTCP: true, name: "TunnelRes-from-foreign-source"},
 		{b: fr(0x0206, ""), name: "ConnRes-empty-body"},
 		{b: fr(0x0206, "05"), name: "ConnRes-1-octet-body"},
@@ -771,4 +773,7 @@ func init() {
 	reg("both", "C01-tcp-receiver-histories-L3", "C01", 0, -1, c16History(true, 3), false)
 	reg("thorough", "C01-udp-receiver-histories-L4", "C01", 0, -1, c16History(false, 4), false)
 	reg("thorough", "C01-tcp-receiver-histories-L4", "C01", 0, -1, c16History(true, 4), false)
+	// "the outcome is a function of the input bytes alone" for bytes that reach the decoder through
+	// the stream receiver: the same frames, however the stream is cut into segments
+	reg("both", "C01-tcp-receiver-2cuts-upto2frames", "C01", 0, -1, c16TCPSeg(0, 2), false)
 }
